@@ -287,6 +287,32 @@ class History:
             setattr(pl, a, v)
         self._rec("set_player", p, a, v)
 
+    def op_inplace_list(self):
+        """edit a plain list the scenario already holds IN PLACE (append / pop / item assignment on the very list object):
+        the managers hand out their lists, so this is an ordinary way to change them"""
+        rng = self.rng
+        r = rng.random()
+        if r < 0.5:
+            p = rng.randint(1, 8)
+            a = rng.choice(["disabled_techs", "disabled_buildings", "disabled_units"])
+            l = getattr(self.scn.player_manager.players[p], a)
+            what = ("player", p, a)
+        else:
+            effs = [(ti, ei, e) for ti, t in enumerate(self.scn.trigger_manager.triggers) for ei, e in enumerate(t.effects)
+                    if isinstance(getattr(e, "selected_object_ids", None), list)]
+            if not effs:
+                return
+            ti, ei, e = rng.choice(effs)
+            l = e.selected_object_ids
+            what = ("effect", ti, ei, "selected_object_ids")
+        k = rng.random()
+        if k < 0.6 or not l:
+            v = rng.randint(1, 900); l.append(v); self._rec("list_append", *what, v)
+        elif k < 0.8:
+            l.pop(); self._rec("list_pop", *what)
+        else:
+            i = rng.randrange(len(l)); v = rng.randint(1, 900); l[i] = v; self._rec("list_setitem", *what, i, v)
+
     def op_active_players(self):
         n = self.rng.randint(1, 8)
         self.scn.player_manager.active_players = n; self._rec("active_players", n)
@@ -318,7 +344,7 @@ class History:
 
     OPS = [("op_add_trigger", 8), ("op_add_effect", 5), ("op_add_condition", 3), ("op_remove_trigger", 4), ("op_remove_component", 3),
            ("op_set_trigger_attr", 4), ("op_reorder", 3), ("op_copy", 3), ("op_variant", 1), ("op_add_variable", 2), ("op_add_unit", 6), ("op_remove_unit", 3), ("op_set_unit", 4),
-           ("op_map", 5), ("op_player", 8), ("op_active_players", 1), ("op_message", 3), ("op_option", 3), ("op_xs", 1)]
+           ("op_map", 5), ("op_player", 8), ("op_active_players", 1), ("op_message", 3), ("op_option", 3), ("op_xs", 1), ("op_inplace_list", 5)]
 
     def step(self):
         ops = [o for o, w in self.OPS for _ in range(w) if self.allow_components or o not in ("op_add_effect", "op_add_condition", "op_remove_component")]
